@@ -153,6 +153,32 @@ func edits() []edit {
 			st.Fields = append(st.Fields, fld(9, "added", c.t(a), idl.ReqDefault))
 		}})
 	}
+	// added fields that carry a declared default (the reader that never sees them on the wire must still show the default)
+	for _, tgt := range []string{"Root", "Inner"} {
+		tgt := tgt
+		id := int32(11)
+		if tgt == "Inner" {
+			id = 8
+		}
+		out = append(out, edit{desc: "add-def-i32-with-default-to-" + tgt, target: tgt, id: id, apply: func(s *schema, a *auxDefs) {
+			st := s.find(tgt)
+			f := fld(id, "added", idl.T(idl.I32), idl.ReqDefault)
+			f.Default = idl.VI(7)
+			st.Fields = append(st.Fields, f)
+		}})
+		out = append(out, edit{desc: "add-opt-string-with-default-to-" + tgt, target: tgt, id: id, apply: func(s *schema, a *auxDefs) {
+			st := s.find(tgt)
+			f := fld(id, "added", idl.T(idl.String), idl.ReqOptional)
+			f.Default = idl.VS("none")
+			st.Fields = append(st.Fields, f)
+		}})
+		out = append(out, edit{desc: "add-opt-list_i32-with-default-to-" + tgt, target: tgt, id: id, apply: func(s *schema, a *auxDefs) {
+			st := s.find(tgt)
+			f := fld(id, "added", idl.ListOf(idl.T(idl.I32)), idl.ReqOptional)
+			f.Default = idl.VL(idl.VI(1), idl.VI(2))
+			st.Fields = append(st.Fields, f)
+		}})
+	}
 	out = append(out, edit{desc: "add-enum-member", target: "E", apply: func(s *schema, a *auxDefs) {
 		s.enums[0].Values = append(s.enums[0].Values, &idl.EnumValue{Name: "ADDED", Value: 9, Explicit: true})
 	}})
@@ -276,7 +302,7 @@ func main() {
 		}
 		// zero-field bases: a representative subset of the field classes is enough for the root
 		if k == "empty" || k == "nested0" || k == "list0" || k == "map0" || k == "union0" {
-			return strings.Contains(e.desc, "-i32-") || strings.Contains(e.desc, "-string-") || strings.Contains(e.desc, "-struct-") || strings.Contains(e.desc, "-list_struct-") || strings.Contains(e.desc, "-map_string_i64-")
+			return strings.Contains(e.desc, "-i32-") || strings.Contains(e.desc, "-string-") || strings.Contains(e.desc, "-struct-") || strings.Contains(e.desc, "-list_struct-") || strings.Contains(e.desc, "-map_string_i64-") || strings.Contains(e.desc, "-with-default-")
 		}
 		return true
 	}
